@@ -1074,7 +1074,7 @@ reg('C08', run_C08, ['Prop_C08.v'], I6RULE + 'evaluations = (grammar, job, varia
     level_note=MODEL_NOTE)
 reg('C09', run_C09, ['Prop_C09.v'], BERULE + 'non-trivial = grammars with >= 4 states and a state with >= 2 kernel items',
     technique='Coq theorems about the executable closure/goto worklist (structure, closure completeness, goto completeness, reachability) + implementation automaton compared with the model up to renumbering',
-    level_text="Proved in Coq for the executable worklist construction: items of a target are advanced items or closure items, state 0 is the closure of the start item, the start item occurs only in state 0, items valid and duplicate-free, every edge justified, every state reachable (C09_structural, C09_more), closure closed under prediction (C09_closure_complete), every symbol after a dot has an edge (C09_goto_complete), no two states have the same item list (C09_no_duplicate_states), and every edge leads to the state whose items are the closure of the advanced items (C09_canonical_edges). The implementation's LR0Closure is compared with the model as a set of item sets with goto edges (bijection through item sets, state 0 fixed) and checked for duplicate states.",
+    level_text="Proved in Coq for the executable worklist construction: items of a target are advanced items or closure items, state 0 is the closure of the start item, the start item occurs only in state 0, items valid and duplicate-free, every edge justified, every state reachable (C09_structural, C09_more), closure closed under prediction (C09_closure_complete), every symbol after a dot has an edge (C09_goto_complete), no two states have the same item list (C09_no_duplicate_states), and every edge leads to the state whose items are the closure of the advanced items (C09_canonical_edges). The implementation's LR0Closure is compared with the model as a set of item sets with goto edges (bijection through item sets, state 0 fixed) and checked for duplicate states. C09_from_the_text: the same for the automaton built from the bytes of a grammar file, with no hypothesis on the grammar object.",
     level_note=MODEL_NOTE)
 reg('C15', run_C15, ['Prop_C15.v'], I6RULE + 'histories: 2-6 parses in a row on one parser (ParserInit before each; one shared context in object mode) compared with the same parses alone; nested parses started from inside GetToken and from inside an action before $n is read (second context in object mode, PushContex/PopContex in default mode); the harness lexer counts tokens in the value record it is handed; concurrent: every -o parser of 4/16 grammars x 6 goroutines with a context each x 30/300 rounds over ~20 inputs under `go build -race`, every result compared with the same parse alone, any DATA RACE report is a violation. non-trivial = histories mixing accepted and rejected inputs, nested runs that happened, accepted inputs of the concurrent run',
     technique='Coq theorems (re-initialisation; histories of any length; cell 0 never overwritten; small-step driver = driver; any interleaving of steps on distinct contexts = each alone; refuted for one shared stack) + parse histories, nested parses (from the lexer and from inside actions, both modes) and concurrent goroutines on distinct contexts under the Go race detector, compared with the same parses alone and with the model',
